@@ -151,6 +151,9 @@ def gen_inputs(ctx):
         if i % 2 == 0:
             lines += rnd.choice(hets)[2]
         out.append(("gen%d" % i, pdbgen.text(lines)))
+    # covalently coupled systems with a penalised member whose determinants are removed from the other groups
+    out.append(("nterm-asp", pdbgen.text(pdbgen.nterm_asp_fragment())))
+    out.append(("nterm-asp-hbond", pdbgen.text(pdbgen.nterm_asp_hbond_fragment())))
     return out
 
 
